@@ -94,8 +94,34 @@ def _fake_defer_to_thread_pool(reactor, pool, f, *args, **kwargs):
         res = f(*args, **kwargs)
     except BaseException:
         res = Failure()
-    R.callLater(0, d.callback, res)
+    if _hold_threads[0]:
+        # the caller of hold_threads() decides when each result comes back (release_thread)
+        held_threads.append((d, res))
+        _held_total[0] += 1
+    else:
+        R.callLater(0, d.callback, res)
     return d
+
+
+_hold_threads = [False]
+_held_total = [0]
+held_threads = []
+
+
+def hold_threads(on):
+    """With set_thread_mode(True): results of defer_to_thread are kept back until release_thread() hands the oldest one over, so the harness
+    can let other events (a consumer stopping, a new read) happen while e.g. a segment decode is 'in its worker thread'."""
+    _hold_threads[0] = bool(on)
+    del held_threads[:]
+    _held_total[0] = 0
+
+
+def release_thread():
+    if not held_threads:
+        return False
+    d, res = held_threads.pop(0)
+    d.callback(res)
+    return True
 
 
 def set_thread_mode(asynchronous):
